@@ -111,6 +111,32 @@ func c10(args []string) {
 		}
 		jobs = append(jobs, &job{s, exp, Cfg{Buf: []int{1, 3, 128}[rep%3], Procs: []int{1, 2, 4}[rep%3], Sched: fmt.Sprintf("%d,300,600", rng.Intn(1<<30))}})
 	}
+	// directed shape: a task with a joined in-port beside ordinary in-ports (header + parts + footer)
+	for rep := 0; rep < c.Pick(6, 24); rep++ {
+		n := 1 + rep%4
+		s := &spec.Spec{Name: fmt.Sprintf("joinmix%d", rep), MaxTasks: 4, Sources: map[string]string{"header.txt": "h\n", "footer.txt": "f\n"}}
+		parts := &spec.Proc{Name: "parts", Kind: spec.KFileSource}
+		for i := 0; i < n; i++ {
+			f := fmt.Sprintf("part%d.txt", i)
+			parts.Files = append(parts.Files, f)
+			s.Sources[f] = f + "\n"
+		}
+		in := []spec.PortDecl{{Name: "in"}}
+		o1 := []spec.PortDecl{{Name: "out"}}
+		s.Procs = append(s.Procs, parts, &spec.Proc{Name: "hdr", Kind: spec.KFileSource, Files: []string{"header.txt"}}, &spec.Proc{Name: "ftr", Kind: spec.KFileSource, Files: []string{"footer.txt"}},
+			&spec.Proc{Name: "W", Kind: spec.KCmd, Cmd: spec.BuildCmd("W", in, o1, nil, nil, nil)},
+			&spec.Proc{Name: "SS", Kind: spec.KSubStream},
+			&spec.Proc{Name: "ASM", Kind: spec.KCmd, Cmd: spec.BuildCmd("ASM", []spec.PortDecl{{Name: "aa"}, {Name: "mid", Join: []string{"space", "comma"}[rep%2]}, {Name: "zz"}}, o1, nil, nil, nil),
+				Outs: []*spec.Out{{Port: "out", Pattern: "assembled.{i:aa|basename}.out"}}},
+			&spec.Proc{Name: "POST", Kind: spec.KCmd, Cmd: spec.BuildCmd("POST", in, o1, nil, nil, nil)})
+		s.Conns = append(s.Conns, &spec.Conn{From: "parts.out", To: "W.in"}, &spec.Conn{From: "W.out", To: "SS.in"}, &spec.Conn{From: "SS.substream", To: "ASM.mid"},
+			&spec.Conn{From: "hdr.out", To: "ASM.aa"}, &spec.Conn{From: "ftr.out", To: "ASM.zz"}, &spec.Conn{From: "ASM.out", To: "POST.in"})
+		exp := evalRef(s, nil)
+		if exp.Err != "" {
+			c.Broken("reference cannot evaluate the join-mix shape: " + exp.Err)
+		}
+		jobs = append(jobs, &job{s, exp, Cfg{Buf: []int{1, 3, 128}[rep%3], Procs: []int{1, 2, 4}[rep%3], Sched: fmt.Sprintf("%d,300,600", rng.Intn(1<<30))}})
+	}
 	run.Parallel(len(jobs), func(i int) {
 		j := jobs[i]
 		root := c.CaseDir()
